@@ -55,6 +55,16 @@ def env_from(values):
     return core.Env(d)
 
 
+def _raised_in_lentil(exc):
+    """True if some frame of the exception's traceback runs lentil source (the real package of this run)."""
+    import traceback as _tb
+    root = os.path.join(os.path.abspath(loader.repo_root()), 'lentil') + os.sep
+    try:
+        return any(os.path.abspath(fs.filename).startswith(root) for fs in _tb.extract_tb(exc.__traceback__))
+    except Exception:
+        return False
+
+
 def run_concrete(hrun, cfg, values, seed=0):
     """Run the harness body on the real lentil with numbers. -> (ConcWorld, exception or None)"""
     W = world.ConcWorld(loader.real_lentil(), values, seed=seed)
@@ -163,8 +173,9 @@ def run_config(pid, hname, cfg, tier, seed, opts):
                 conly = [(n, d) for n, st, d in CW.obs if st == 'fail-concrete-only']
                 if conly:
                     res['candidates'].append({'ob': conly[0][0], 'values': vals, 'path': res['paths']})
-                if exc is not None and exc != 'assumption':
+                if exc is not None and exc != 'assumption' and _raised_in_lentil(exc):
                     # the real code raises at a point of a path that ended normally in the symbolic run: replayed like any candidate
+                    # (an exception raised by the harness's own reference arithmetic, e.g. math.exp overflow, is not one)
                     res['candidates'].append({'ob': f'exception:{type(exc).__name__}', 'values': vals, 'path': res['paths'],
                                               'note': 'raised in the concrete validation run: ' + repr(exc)[:200]})
                 if exc is None:
